@@ -1,4 +1,5 @@
 import VelaVerif.Lemmas.FpMath
+import VelaVerif.Lemmas.Lut
 import VelaVerif.Gen.FpMathTables
 /-!
 # C19 — lookup tables and compile-time fixed-point maths match their reference functions
@@ -10,7 +11,7 @@ with C semantics: `Int.tdiv`, two's-complement casts and masks); helper lemmas: 
 every run, so the `decide`s over them are re-checked against the live code.
 -/
 namespace VelaVerif.Props.C19
-open VelaVerif VelaVerif.FpMath
+open VelaVerif VelaVerif.FpMath VelaVerif.Lut
 
 /-! ## the fixed-point primitives equal the gemmlowp reference on their whole domain -/
 
@@ -110,6 +111,81 @@ theorem mbqm_rejects (x scale shift : Int)
     unfold saturatingRoundingMul32 chk32
     simp [hfit]; rfl
 
+
+/-! ## look-up tables -/
+
+/-- `convert_lrelu_to_lut`: for every int32 multiplier pair, shifts in `[0, 62]` and zero points such that the
+    pre-shifted operand fits int32 (always the case for zero points inside the 8-bit range and shifts ≥ 9, see
+    `lrelu_fit_of_range`), **each of the 256 entries equals the TFLite reference LeakyRelu kernel** evaluated at that
+    code, and lies in `[qmin, qmax]`. -/
+theorem lrelu_lut_spec (signed : Bool) (zpIn zpOut idScale idShift aScale aShift : Int)
+    (h1 : inI32 idScale = true) (h2 : inI32 aScale = true)
+    (hi : 0 ≤ idShift ∧ idShift ≤ 62) (ha : 0 ≤ aShift ∧ aShift ≤ 62)
+    (hfit : ∀ x ∈ codes signed, inI32 ((x - zpIn) * 2 ^ leftOf (if x < zpIn then aShift else idShift)) = true) :
+    lreluLut signed zpIn zpOut idScale idShift 1 aScale aShift =
+      .ok ((codes signed).map
+        (Gemmlowp.leakyReluRef (qmin signed) (qmax signed) zpIn zpOut idScale (31 - idShift) aScale (31 - aShift))) ∧
+    ∀ v ∈ (codes signed).map
+        (Gemmlowp.leakyReluRef (qmin signed) (qmax signed) zpIn zpOut idScale (31 - idShift) aScale (31 - aShift)),
+      qmin signed ≤ v ∧ v ≤ qmax signed := by
+  constructor
+  · exact mapM_ok _ _ _ (fun x hx => lrelu_entry_eq signed zpIn zpOut idScale idShift aScale aShift x h1 h2 hi ha (hfit x hx))
+  · intro v hv
+    simp only [List.mem_map] at hv
+    obtain ⟨x, _, rfl⟩ := hv
+    have := qmin_le_qmax signed
+    unfold Gemmlowp.leakyReluRef
+    simp only []
+    omega
+
+/-- the side condition of `lrelu_lut_spec` holds whenever the input zero point is an 8-bit code of the same type
+    and both shifts are at least 9 (rescale factor below 2^22) -/
+theorem lrelu_fit_of_range (signed : Bool) (zpIn idShift aShift : Int)
+    (hz : qmin signed ≤ zpIn ∧ zpIn ≤ qmax signed) (hi : 9 ≤ idShift) (ha : 9 ≤ aShift) :
+    ∀ x ∈ codes signed, inI32 ((x - zpIn) * 2 ^ leftOf (if x < zpIn then aShift else idShift)) = true := by
+  intro x hx
+  have hc := codes_mem signed x hx
+  apply fit_of_small
+  · cases signed <;> simp [qmin, qmax] at hc hz <;> omega
+  · unfold leftOf; split <;> split <;> omega
+
+/-- constant folding of Quantize (`optimise_quantize`, int8→int8 / int16→int16): every folded constant equals the
+    TFLite reference `Requantize` value and lies in `[quant_min, quant_max]` -/
+theorem quantize_fold_eq (quantMin quantMax zpIn zpOut mult shift : Int) (vals : List Int)
+    (hq : quantMin ≤ quantMax) (h1 : inI32 mult = true) (hs : 0 ≤ shift ∧ shift ≤ 62)
+    (hfit : ∀ v ∈ vals, inI32 ((v - zpIn) * 2 ^ leftOf shift) = true) :
+    quantizeFold quantMin quantMax zpIn zpOut mult shift vals =
+      .ok (vals.map (Gemmlowp.requantizeRef quantMin quantMax zpIn zpOut mult (31 - shift))) ∧
+    ∀ r ∈ vals.map (Gemmlowp.requantizeRef quantMin quantMax zpIn zpOut mult (31 - shift)), quantMin ≤ r ∧ r ≤ quantMax := by
+  constructor
+  · exact mapM_ok _ _ _ (fun v hv => quantize_entry_eq quantMin quantMax zpIn zpOut mult shift v h1 hs (hfit v hv))
+  · intro r hr
+    simp only [List.mem_map] at hr
+    obtain ⟨v, _, rfl⟩ := hr
+    unfold Gemmlowp.requantizeRef
+    simp only []
+    omega
+
+/-- `convert_to_lut8` / `create_lut_8bit_op` for **any** real function (abstracted as the rounded value `g`):
+    256 entries, every entry saturated into `[qmin, qmax]`, and a monotone `g` gives a monotone table -/
+theorem lut8_saturated (signed : Bool) (g : Int → Int) :
+    (lut8 signed g).length = 256 ∧
+    (∀ v ∈ lut8 signed g, qmin signed ≤ v ∧ v ≤ qmax signed) ∧
+    ((∀ a b, a ≤ b → g a ≤ g b) → (lut8 signed g).Pairwise (· ≤ ·)) := by
+  refine ⟨by simp [lut8, codes_length], ?_, ?_⟩
+  · intro v hv
+    simp only [lut8, List.mem_map] at hv
+    obtain ⟨x, _, rfl⟩ := hv
+    exact clamp_range _ _ _ (qmin_le_qmax signed)
+  · intro hmono
+    unfold lut8
+    rw [List.pairwise_map]
+    refine List.Pairwise.imp ?_ (codes_pairwise signed)
+    intro a b hab
+    have := hmono a b (by omega)
+    unfold clamp
+    omega
+
 /-! ## constants quoted from the live source equal the gemmlowp constants -/
 
 /-- the polynomial constants and the seven barrel-shifter multipliers `exp(-2^k)` (Q0.31) in `fp_math.py`
@@ -129,5 +205,10 @@ example : roundingDivideByPot (-5) 1 = .ok (-3) ∧ roundingDivideByPot 5 1 = .o
 example : multiplyByQuantizedMultiplier (-100) 1073741824 30 = .ok (-100) := by decide
 example : inI32 ((-100) * 2 ^ (if (31:Int) - 30 > 0 then ((31:Int) - 30).toNat else 0)) = true := by decide
 example : multiplyByQuantizedMultiplier 100 1073741824 5 = .error .assert_ := by decide
+-- lrelu: int8, zero points 3 / -8, identity 0.4 (1717986854, 32), alpha 0.04 (1374389504, 35): hypotheses hold, table is not constant
+example : (qmin true ≤ (3:Int) ∧ (3:Int) ≤ qmax true) ∧ inI32 1717986854 = true ∧ inI32 1374389504 = true := by decide
+example : lreluEntry true 3 (-8) 1717986854 32 1 1374389504 35 (-128) = .ok (-13) ∧
+    lreluEntry true 3 (-8) 1717986854 32 1 1374389504 35 127 = .ok 42 := by decide
+example : quantizeFold (-128) 127 3 (-5) 1073741824 29 [-128, 0, 127] = .ok [-128, -11, 127] := by decide
 
 end VelaVerif.Props.C19
